@@ -588,12 +588,12 @@ class StateDesc:
             return self
         return obj.__dict__["_sim_state"]
 
-    @harness_guard
     def __set__(self, obj, v):
         old = obj.__dict__.get("_sim_state")
         obj.__dict__["_sim_state"] = v
         if W is not None and W.k.current is not None:
-            W.on_state(obj, old, v, sys._getframe(1).f_code.co_name)
+            where = sys._getframe(1).f_code.co_name     # (informational only: probes, messages)
+            harness_guard(W.on_state)(obj, old, v, where)
 
 
 _orig_job_init = xbase.Job.__init__
